@@ -126,7 +126,7 @@ def check(repo: Repo, run: Run) -> None:
     bound.update(dict(yv.a[2]))
     routines = [("pykdebugparser.traces_parser", "TracesParser.vnode_generator", bound.get("path"), [bound.get("vnode_id")],
                  {"vnode id": (bound.get("vnode_id"), 0)}, ys[0])]
-    tr = repo.module("trace_handlers.trace")
+    tr = repo.home("trace_handlers.trace", "handle_trace_string_global")
     gs = repo.function("trace_handlers.trace", "handle_trace_string_global")
     grec = interp.run(tr, gs, {"parser": PARSER, "events": EVENTS})
     gobj = grec.return_term()
